@@ -30,7 +30,7 @@ def _ops(fn: ast.AST) -> List[Tuple[str, List[str], ast.Call]]:
     out = []
     for c in calls_in(fn):
         if isinstance(c.func, ast.Attribute) and is_self_attr(c.func.value, "_operations"):
-            out.append((c.func.attr, [norm(a) for a in c.args], c))
+            out.append((c.func.attr, [norm(common._subst_single_locals(fn, a)) for a in c.args], c))  # `resource = self.resource` read through
     return out
 
 
@@ -354,7 +354,8 @@ def _check_body(ctx, res) -> None:
     sym = False
     for g in common.with_private_helpers(idx, dep):
         here = set()
-        for c in calls_in(g.node):
+        # read on the copy with one-expression helpers substituted (`_is_below(a, b) or _is_below(b, a)` is the same test)
+        for c in calls_in(common.inlined(idx, g)):
             if isinstance(c.func, ast.Attribute) and c.func.attr == "contains" and len(c.args) == 1:
                 here.add((norm(c.func.value), norm(c.args[0])))
             # the same test on path strings: `a.startswith(b + "/")`
